@@ -8,11 +8,7 @@ from pathlib import Path
 sys.path.insert(0, "/verif")
 ALL = [f"C{i:02d}" for i in range(1, 21)]
 
-NA_REASON = {
-    "C13": "observable state is files/SQLite rows behind C-level I/O and identifier logic goes through pathlib/re on strings, "
-    "which CrossHair could not exhaust at <=4 chars and z3 answers unknown on; driving the store with solver-chosen concrete "
-    "ids would be enumeration, not a solver verdict (DESIGN.md C13)",
-}
+NA_REASON = {}
 PENDING = "check not built yet in this round (planned design in DESIGN.md section 2); not claimed until its quick command runs clean"
 
 READY = set(open("/verif/tools/ready.txt").read().split())
@@ -46,8 +42,9 @@ def main():
                 "engine": getattr(m, "ENGINE", "E1 CrossHair 0.0.110 (z3) on the real code"),
                 "level_claimed": {
                     "category": "other",
-                    "text": "bounded symbolic verification (SMT): " + m.CLAIM + " Inside the bounds in the evidence file the verdict is a solver "
-                    "for-all (all paths exhausted / unsat), not sampling; nothing is claimed outside them.",
+                    "text": getattr(m, "LEVEL_TEXT", None) or ("bounded symbolic verification (SMT): " + m.CLAIM + " Inside the bounds in the evidence file the verdict is a solver "
+                    "for-all (all paths exhausted / unsat), not sampling; nothing is claimed outside them. Obligations marked 'realised-input' in the evidence are "
+                    "solver-driven bounded-exhaustive runs of the public API (DESIGN.md section 0), a weaker grade listed separately."),
                     "design_ref": f"DESIGN.md section 2, {pid}",
                 },
                 "level_note": "trusted: " + "; ".join(getattr(m, "TRUSTED", [])) + ". assumed: " + "; ".join(m.ASSUMPTIONS[:4]),
